@@ -203,6 +203,14 @@ def _mk_call(sim, stacks, ev, res):
             ev2 = dict(ev, _state=(ca._device_address_state, ca._device_address), _t0=len(sim.trace))
             r = st.call(('ca_request', sim.now, ev['ca'], x[0], x[1], x[2]), lambda: ca.send_request(x[0], x[1], x[2]))
             res.returns.append((dict(ev2, _t1=len(sim.trace)), r))
+        elif op == 'dm1_start':
+            # a diagnostic service built on the CA: cyclic DM1 with the given lamps / trouble codes
+            import j1939 as _j
+            ca = st.cas[ev['ca']]
+            dm = _j.Dm1(ca)
+            st.dm1s = getattr(st, 'dm1s', []) + [dm]
+            lamps, dtcs = ev.get('lamps', dict(pl=0, awl=1, rsl=0, mil=0)), ev.get('dtcs', [dict(spn=100, fmi=3, oc=1)])
+            st.call(('dm1_start', sim.now, ev['ca']), lambda: dm.start_send(lambda: (dict(lamps), [dict(d) for d in dtcs]), ev.get('cycle', 100000) / 1e6))
         elif op == 'ca_unsubscribe_request':
             st.ca_unsubscribe_request(ev['ca'], ev['cid'])
         elif op == 'ca_subscribe':
